@@ -362,6 +362,17 @@ def check(prop, tier):
                 sig, msg = s1[2][0], s1[2][1] + " (first seen as a non-reproducible %s on the release build)" % sig
                 if (p, sig) in seen_sigs: continue
                 ok1 = ok2 = True; r1, r2 = s1, s2
+        if not is_crash and not (ok1 and ok2) and r1[0] == r2[0] and r1[1] == r2[1] and r1[1] is not None:
+            # the worker that first saw it had run other plans before (state the library keeps across runs in one OS process is
+            # itself a symptom).  What two fresh processes agree on is what gets reported: a violation of this property under
+            # another signature is reported under that one; none at all is a machinery error, below.
+            alt = sorted(s2 for (p2, s2) in r1[0] if p2 == p)
+            if alt:
+                msg = "%s (a fresh process shows this signature; a worker with earlier runs behind it showed %s: %s)" % (
+                    next((m for (p2, s2, m) in parse_stream(r1[3])[0][0]["viols"] if p2 == p and s2 == alt[0]), ""), sig, msg[:120])
+                sig = alt[0]
+                if (p, sig) in seen_sigs or (p, sig) in found: continue
+                ok1 = ok2 = True
         seen_sigs.add((p, sig))
         if not (ok1 and ok2 and r1[1] == r2[1]):
             lines_out.append("MACHINERY-ERROR: seed %d signature %s/%s did not reproduce in a fresh process (%s / %s)" % (seed, p, sig, r1[0] or r1[2], r2[0] or r2[2]))
@@ -432,13 +443,15 @@ def selftest_det(n):
     seen = set()
     for variant in ("rel", "san"):
         exe = build(variant)
-        for prop, spec in sorted(JOBS.items()):
-            job = spec["jobs"][0]
+        alljobs = [j for prop, spec in sorted(JOBS.items()) for j in spec["jobs"] if not j.get("sweep") and not j.get("valgrind")]
+        for job in alljobs:
             key = (job["engine"], job.get("cfg", ""), variant)
             if key in seen: continue
             seen.add(key)
             base = 4242
             nn = n if variant == "rel" else max(100, n // 4)
+            if "big=1" in job.get("cfg", ""): nn = max(14, nn // 40)
+            if "crowd=1" in job.get("cfg", "") or "churn=1" in job.get("cfg", ""): nn = max(50, nn // 4)
 
             def hashes(i0, i1):
                 r = sh([exe, "run", job["engine"], str(base), str(i0), str(i1), "--cfg", job.get("cfg", "")])
@@ -454,7 +467,7 @@ def selftest_det(n):
                 r = sh([exe, "one", job["engine"], seed, "--cfg", job.get("cfg", "")])
                 hh = [l.split()[2] for l in r.stdout.splitlines() if l.startswith("END ")]
                 if not hh or hh[0] != a[seed]: fresh += 1
-            print("det %s %-10s %-22s seeds=%d chunked-mismatches=%d fresh-process-mismatches=%d" % (variant, job["engine"], job.get("cfg", ""), len(a), mism, fresh))
+            print("det %s %-10s %-30s seeds=%d chunked-mismatches=%d fresh-process-mismatches=%d" % (variant, job["engine"], job.get("cfg", ""), len(a), mism, fresh))
             if mism or fresh or len(a) != nn: bad += 1
     print("determinism selftest:", "FAILED" if bad else "ok")
     return 2 if bad else 0
